@@ -806,5 +806,15 @@ def r6_explicit_cases_pass_hooks(chk: Check) -> None:
         chk.undecided("C19.R6", "<discovery>", f"sites={n}", "fewer hypothesis.example(case=...) sites than confirmed by hand (2)")
 
 
+def r7_memo(chk: Check) -> None:
+    from . import shared
+
+    P = chk.project
+    mods = ('hooks.py', 'auths.py', 'filters.py', 'schemas.py', 'specs/openapi/_hypothesis.py')
+    fns = [f for m in mods if m in P.by_relpath for f in P.module(m).functions.values() if not isinstance(f.node, ast.Lambda)]
+    shared.memo_key_rule(chk, "C19.R7", fns, {("_set_cache_entry", "data"): "a setter: the value to store is handed in by get(), which computed it for this key", ("_get_body_strategy", "operation"): "a parameter belongs to exactly one operation (stated next to the cache)"},
+                         "MEMO-KEY(anchor modules of this property): which hooks / providers apply depends on the operation and the dispatcher: a cache keyed by less applies another operation's answer", floor=0)
+
+
 def rules(tier: str) -> list:  # type: ignore[type-arg]
-    return [r1_cell, r2_hook_loops, r2b_should_skip, r3_all_scopes, r3b_fold_over_hooks, r4_auth, r5_proxy_forwarding, r6_explicit_cases_pass_hooks]
+    return [r1_cell, r2_hook_loops, r2b_should_skip, r3_all_scopes, r3b_fold_over_hooks, r4_auth, r5_proxy_forwarding, r6_explicit_cases_pass_hooks, r7_memo]
